@@ -294,8 +294,7 @@ class Unit:
                 text = text[:prev_s] + text[ls:]
                 hi -= (ls - prev_s)
                 rec['transformations'].append(dict(rule='T8', what='auto external_body removed: function verified by this unit'))
-            else:
-                raise LostAnchor('unexternal: fn %s is not auto-external' % fname)
+            # else: the syntactic scan did not mark it (nothing to remove)
         seg = text[lo:hi]
         seg = self._apply_subs(seg, subs, fname, rec, nth=nth)
         return text[:lo] + seg + text[hi:]
